@@ -89,7 +89,9 @@ def finding_matches(entry, pid, signature):
             return False
     if "obligation" in m and signature.get("obligation") != m["obligation"]:
         return False
-    if "checks" in m and signature.get("check") not in m["checks"]:
+    if "checks" in m and signature.get("check") not in m["checks"] and not any((signature.get("obligation") or "").endswith(x) for x in m.get("obligation_suffixes", [])):
+        return False
+    if "obligation_suffixes" in m and signature.get("obligation") and not any(signature["obligation"].endswith(x) for x in m["obligation_suffixes"]):
         return False
     if "predicate" in m:
         from checks.findings_pred import PREDICATES
